@@ -10,6 +10,13 @@ use crate::run::{panic_site, run_query, End};
 use serde_json::{json, Value};
 
 pub fn programs(quick: bool, tags: bool) -> Vec<Program> {
+    programs_level(if quick { 0 } else { 1 }, tags)
+}
+
+/// level 0: single constraint sets; 1: + every pair of constraint sets and a third statement
+/// order; 2: + every triple of constraint sets.
+pub fn programs_level(level: u8, tags: bool) -> Vec<Program> {
+    let quick = level == 0;
     // query variables q0 (V0), q1 (V1); fresh x (V2), y (V3), h (V4)
     let q0 = T::V(0);
     let q1 = T::V(1);
@@ -74,6 +81,21 @@ pub fn programs(quick: bool, tags: bool) -> Vec<Program> {
                 let mut ab = a.clone();
                 ab.extend(b.iter().cloned());
                 cons.push(ab);
+            }
+        }
+        if level >= 2 {
+            for (i, a) in singles.iter().enumerate() {
+                for (j, b) in singles.iter().enumerate().skip(i + 1) {
+                    for c in singles.iter().skip(j + 1) {
+                        if a.is_empty() || b.is_empty() || c.is_empty() {
+                            continue;
+                        }
+                        let mut abc = a.clone();
+                        abc.extend(b.iter().cloned());
+                        abc.extend(c.iter().cloned());
+                        cons.push(abc);
+                    }
+                }
             }
         }
     }
@@ -214,7 +236,7 @@ fn check(p: &Program, index: usize) -> (Vec<Violation>, bool) {
 pub fn run(ctx: &mut Ctx) {
     let quick = ctx.quick();
     ctx.set("rule", json!("E3: query variables bound to 13 term shapes (proper / improper / nested lists, repeated variables, five compound kinds, nested compounds, a recursive compound) x a second query variable sharing variables with the first x 12 constraint sets (disequalities on inner variables, between inner variables, multi-binding, on hidden variables, on the query variable itself, later satisfied / subsumed) x statement orders. Every answer: every variable is a reified `_` variable; the answer tuple equals the reference substitution up to renaming (one `_` per distinct unbound variable, shared across query variables); reported constraints mention only the answer's variables; LResult::constraints() of each query variable returns exactly the reported constraints that mention a variable occurring anywhere in its term. distinct_nontrivial = answers carrying constraints."));
-    let progs = programs(quick, true);
+    let progs = programs_level(if quick { 1 } else { 2 }, true);
     let sel: Vec<usize> = match &ctx.replay {
         Some(r) if r.family == "c03" => vec![r.index],
         Some(_) => vec![],
